@@ -48,11 +48,23 @@ for w in (4, 8, 2, 1):
        flags=["--no-malloc-may-fail"], gi_flags=["--no-malloc-may-fail"], timeout=900, trusted=PIO_TRUST,
        tier="quick" if w == 4 else "thorough", **PIO)
 # (1) the odometer
-VA = dict(entry="h_NCvario", enforce="H4_NCvario", mode="bounded", replace=["hdf_get_vp_aid", "hdf_xdr_NCvdata"],
-          flags=["--no-malloc-may-fail"], gi_flags=["--no-malloc-may-fail"],
-          trusted=PIO_TRUST + ["hdf_xdr_NCvdata (run logger: contract preconditions are the checks)"], **PIO)
-ob("NCvario_r2", "C03", bound="rank 1..2, extents <= 4, edges 0..3, start -1..5, numrecs <= 4, element size 4; fixed-size and "
-   "record variables, read and write", unwind=12, cex_unwind=12, defines=["PGIO_VARIO", "MAXR=2", "C03_W=4"], timeout=900, **VA)
-ob("NCvario_r3", "C03", bound="rank 1..3, extents <= 4, edges 0..3, start -1..5, numrecs <= 4, element size 4; fixed-size and "
-   "record variables, read and write", unwind=14, cex_unwind=14, defines=["PGIO_VARIO", "MAXR=3", "C03_W=4"], timeout=3000,
-   tier="thorough", **VA)
+# per-loop unwinding (the global bound would unwind the odometer's nested loops quadratically): R = max rank
+def va_unwindset(R):
+    w = "H4_NCvario_wrapped_for_contract_checking"
+    d = {f"{w}.0": R + 2, f"{w}.1": R + 2, f"{w}.2": R + 2, f"{w}.3": 7, f"{w}.4": 6,
+         "H4_NCcoordck.0": R + 2, "H4_NCcoordck.1": 4, "H4_NCcoordck.2": 2, "NC_varoffset.0": R + 2, "NCvcmaxcontig.0": R + 2}
+    d.update({f"h_NCvario.{i}": 4 for i in range(5)})
+    return ",".join(f"{k}:{v}" for k, v in d.items())
+
+
+def VA(R):
+    return dict(entry="h_NCvario", enforce="H4_NCvario", mode="bounded", replace=["hdf_get_vp_aid", "hdf_xdr_NCvdata"],
+                flags=["--no-malloc-may-fail", "--unwindset", va_unwindset(R)], gi_flags=["--no-malloc-may-fail"],
+                unwind=16, cex_unwind=16, defines=["PGIO_VARIO", f"MAXR={R}", "C03_W=4"],
+                bound=f"rank 1..{R}, extents <= 4, edges 0..3, start -1..5 (record writes start at most one record beyond the end), "
+                      "numrecs <= 4, element size 4; fixed-size and record variables, read and write",
+                trusted=PIO_TRUST + ["hdf_xdr_NCvdata (run logger: contract preconditions are the checks)"], **PIO)
+
+
+ob("NCvario_r2", "C03", timeout=900, **VA(2))
+ob("NCvario_r3", "C03", timeout=3000, tier="thorough", **VA(3))
